@@ -7,7 +7,9 @@
    `Display` exposes) is not determined by the model: `print` takes the order as an argument
    and the theorems quantify over every permutation. The string constants are the generated
    ones (GenUriTables.v, read off channel_uri.rs on every run). *)
-Require Import V.Base.MachineInt V.Model.UriTypes V.Generated.GenUriTables.
+Require Import V.Base.MachineInt.
+Require Import V.Model.UriTypes.
+Require Import V.Generated.GenUriTables.
 Open Scope Z_scope.
 
 (* str::strip_prefix *)
